@@ -109,6 +109,7 @@ NONASCII = [0xE9, 0xFF, 0x100, 0x152, 0x20AC, 0x3A9, 0x4E2D, 0xFFFD, 0x80, 0x81,
 LINE11 = [0x85, 0x2028, 0x7F, 0x9F, 0x84, 0x86]
 SUPP = [0x10000, 0x10348, 0x1F600, 0x10FFFF]
 CTRL = [0x1, 0x8, 0xB, 0x1F]
+SPECIALS = [0x26, 0x3C, 0x3E, 0x22, 0x27, 0xD, 0xA, 0x9, 0x85, 0x2028]   # & < > " ' CR LF TAB NEL LSEP
 ILLEGAL = [0xFFFE, 0xFFFF]
 
 
@@ -179,6 +180,19 @@ def gen_fmt_cases(ctx):
         ver = "11" if rng.random() < 0.35 else "10"
         s = rand_text(rng, allow_ctrl=True, allow_bad=rng.random() < 0.1, n=rng.randrange(0, 16))
         cases.append(("rand", "fmt %s %d %d %s %s" % (enc, mode, unrep, ver, H(units_of(s)))))
+    # escape modes as first-class requests: every mode x every ordered pair / sampled triple of the special characters
+    # (the reference strings are cached lazily, per formatter, in the order of first use)
+    for enc in ENCS:
+        for mode in range(4):
+            for ver in ("10", "11"):
+                for c1 in SPECIALS:
+                    cases.append(("special", "fmt %s %d 1 %s %s" % (enc, mode, ver, H([c1]))))
+                    for c2 in SPECIALS:
+                        if c2 != c1 and (thorough or enc == "utf8" or rng.random() < 0.2):
+                            cases.append(("special", "fmt %s %d 1 %s %s" % (enc, mode, ver, H([0x78, c1, 0x79, c2, c1, c2, 0x7A]))))
+                for _ in range(40 if not thorough else 400):
+                    t = [rng.choice(SPECIALS + [0x61]) for _ in range(rng.randrange(3, 8))]
+                    cases.append(("special", "fmt %s %d 1 %s %s" % (enc, mode, ver, H(t))))
     # long strings across the kTmpBufSize chunking of handleUnEscapedChars
     for enc in ENCS:
         for n in ((16383, 16384, 16385, 20000) if thorough else (16384, 16385)):
@@ -187,6 +201,33 @@ def gen_fmt_cases(ctx):
             if thorough or enc in ("utf8", "latin1"):
                 cases.append(("long", "fmt %s 3 1 10 %s" % (enc, H([0x20AC] * 6000 + [0x61] * (n - 6000)))))
     return cases
+
+
+def gen_fseq_cases(ctx):
+    """one XMLFormatter object, several formatBuf calls with their own escape modes"""
+    rng = ctx.rng
+    thorough = ctx.tier == "thorough"
+    out = []
+    for c1 in SPECIALS:
+        for c2 in SPECIALS:
+            if c1 == c2:
+                continue
+            for m1 in range(4):
+                for m2 in range(4):
+                    if not (thorough or m1 == m2 or rng.random() < 0.25):
+                        continue
+                    enc = "utf8" if rng.random() < 0.6 else rng.choice(ENCS)
+                    ver = "11" if rng.random() < 0.3 else "10"
+                    out.append("fseq %s 1 %s %d %s %d %s %d %s" % (enc, ver, m1, H([c1]), m2, H([0x61, c2]), m1, H([c2, c1, 0x62])))
+    for _ in range(1500 if not thorough else 20000):
+        enc = rng.choice(ENCS)
+        ver = "11" if rng.random() < 0.3 else "10"
+        steps = []
+        for _ in range(rng.randrange(2, 6)):
+            t = [rng.choice(SPECIALS + [0x61, 0xE9, 0x20AC]) for _ in range(rng.randrange(0, 6))]
+            steps.append("%d %s" % (rng.randrange(4), H(t)))
+        out.append("fseq %s %d %s %s" % (enc, 1 if rng.random() < 0.85 else 0, ver, " ".join(steps)))
+    return out
 
 
 NAME_START = [0x61, 0x62, 0x7A, 0x41, 0x5F]
@@ -424,6 +465,55 @@ def gen_ns_cases(ctx):
 
 
 
+def gen_seq_cases(ctx):
+    """several documents written one after the other by ONE DOMLSSerializer instance: version changes (XML 1.1, then a
+    document without version information carrying C0/C1 controls, NEL, LSEP, and the other way round), encoding
+    changes, pretty-print / newline settings switched on and off between writes"""
+    rng = ctx.rng
+    thorough = ctx.tier == "thorough"
+    out = []
+
+    def step(tr_ver, enc, feats, tr=None, body=None):
+        ver11 = tr_ver == "11"
+        if tr is None:
+            tr = Tree(rng, False, ver11, bad_rate=0.08 if rng.random() < 0.3 else 0.0)
+            body = tr.document()
+        return (tr, enc, feats, tr_ver, "%s %s %s %s" % (enc, feats, tr_ver, body))
+
+    def fixed_tree(ver11, units, where):
+        tr = Tree(rng, False, ver11, 0.0)
+        tr.names.append([0x72])
+        tr.data.append(units)
+        tr.nodes = 2
+        if where == "text":
+            body = "D 1 E - 0072 0 1 T %s" % H(units_of(units))
+        else:
+            tr.attr_names.append([0x6B])
+            body = "D 1 E - 0072 1 - 006B %s 0" % H(units_of(units))
+        return tr, body
+
+    # systematic: a character whose treatment depends on the XML version, after / before a document of the other version
+    for c in [0x1, 0x8, 0xB, 0x1F, 0x7F, 0x84, 0x85, 0x9F, 0x2028]:
+        for where in ("text", "attr"):
+            for enc in (ENCS if thorough else ["utf8", "latin1"]):
+                for va, vb in (("11", "10"), ("10", "11"), ("11", "1e"), ("1e", "11"), ("11", "11"), ("10", "10")):
+                    ta, ba = fixed_tree(va == "11", [0x61, c, 0x62], where)
+                    tb, bb = fixed_tree(vb == "11", [0x61, c, 0x62], where)
+                    out.append([step(va, enc, "x1s1n0", ta, ba), step(vb, enc, "x1s1n0", tb, bb), step(va, enc, "x1s1n0", ta, ba)])
+    # random sequences
+    for _ in range(600 if not thorough else 8000):
+        steps = []
+        for _ in range(rng.randrange(2, 5)):
+            ver = rng.choice(["10", "10", "11", "1e"])
+            enc = rng.choice(ENCS)
+            feats = "x%ds%dd%db0n0p%dl%d" % (1 if (ver == "11" or enc != "utf8" or rng.random() < 0.7) else 0,
+                                            0 if rng.random() < 0.2 else 1, rng.choice([0, 1]),
+                                            1 if rng.random() < 0.2 else 0, rng.choice([0, 0, 1, 2]))
+            steps.append(step(ver, enc, feats))
+        out.append(steps)
+    return out
+
+
 def valid_units(units, ver11, production=False):
     """units that ensureValidString accepts: XML 1.0 Chars; for XML 1.1 the characters that may appear literally
     (Char minus RestrictedChar).  production=True: the Char production of XML 1.1 itself."""
@@ -496,8 +586,10 @@ def classify(tree, enc, feats, can):
         u = units_of(d)
         if not valid_units(u, ver11) or not valid_units(tg, ver11):
             reasons.append("invalid-char")
-        if contains(u, [0x3F, 0x3E]) or (u and u[0] in WS):
-            reasons.append("pi-data")
+        if contains(u, [0x3F, 0x3E]):
+            reasons.append("pi-end")
+        if u and u[0] in WS:
+            reasons.append("pi-leading-ws")
         if any(c in lineends for c in u):
             reasons.append("lineend-in-pi")
         if not rep(d) or not rep(tg):
@@ -545,6 +637,7 @@ WITNESS = {
         HS("urn:u1"), HS("p:x"), HS("http://www.w3.org/2000/xmlns/"), HS("xmlns:p"), HS("urn:u1"),
         HS("http://www.w3.org/2000/xmlns/"), HS("xmlns:q"), HS("urn:u2")),
     "F46": "doc win1252 x1s1 10 D 1 " + E("r", [], ["T " + HS("a\uFF1Cb\uFF1E")]),
+    "F55": "doc utf8 x1s1 10 D 1 " + E("r", [], ["P " + HS("t") + " " + HS(" a")]),
     "F44": "fmt utf8 3 1 10 " + H([0x61, 0xD800]),
 }
 
@@ -610,7 +703,14 @@ def run(ctx):
         ctx.note("impl : %s" % (impl[0][:600] if impl else "<none>"))
         ctx.note("model: %s" % (model[0][:600] if model else "<none>"))
         ctx.count()
-        if req.startswith("doc") or req.startswith("src"):
+        if req.startswith("seq "):
+            parts = impl[0].split(" | ") if impl else []
+            part = parts[r.get("step", 0)] if r.get("step", 0) < len(parts) else "missing"
+            a = parse_doc_answer(part)
+            bad = not (a.get("fresh") == "1") or (a.get("ser") == "ok" and (a.get("reparse") != "ok" or a.get("eq") not in ("1", "merged")))
+            if bad:
+                ctx.violation("replay", dict(r, impl=part[:3000]))
+        elif req.startswith("doc") or req.startswith("src"):
             a = parse_doc_answer(impl[0]) if impl else {}
             good = a.get("ser") == "ok" and a.get("reparse") == "ok" and a.get("eq") in ("1", "merged") and a.get("idem") == "1"
             if r.get("expect") == "nsfixup":
@@ -684,12 +784,17 @@ def run(ctx):
         else:
             violation(fid, payload)
 
+    # F40 / F41 / F44 have a proposed repair (fixes/C12-comment-pi-wf.patch, fixes/C12-formatter-no-progress.patch); the
+    # models describe the repaired code.  While the entries are "known" and the witnesses still show the old behaviour,
+    # inputs of exactly these classes are attributed to the finding and not compared with the model.
     a = parse_doc_answer(W["F40"])
+    f40_open = a.get("ser") == "ok" and a.get("reparse") != "ok" and ctx.find_known("F40") is not None
     known_or_violation("F40", a.get("ser") == "ok" and a.get("reparse") != "ok",
                        "comment data containing '--' (or ending in '-') is emitted verbatim without any DOMError; the "
                        "output is not well-formed (witness: comment 'a--b' -> <!--a--b-->)",
                        {"request": WITNESS["F40"], "impl": W["F40"][:800], "what": "ill-formed comment emitted"})
     a = parse_doc_answer(W["F41"])
+    f41_open = a.get("ser") == "ok" and a.get("eq") != "1" and ctx.find_known("F41") is not None
     known_or_violation("F41", a.get("ser") == "ok" and a.get("eq") != "1",
                        "processing-instruction data containing '?>' is emitted verbatim without any DOMError; the "
                        "output re-parses to a different tree (witness: PI data 'a?>b')",
@@ -749,7 +854,17 @@ def run(ctx):
         a_ = req.split()
         return a_[1] in lossy and any(u in lossy[a_[1]] for u in unhex(a_[5], 4))
 
-    known_or_violation("F44", W["F44"] == "hang" and WM["F44"] == "err HANG",
+    a = parse_doc_answer(W["F55"])
+    known_or_violation("F55", a.get("ser") == "ok" and a.get("reparse") == "ok" and a.get("eq") == "0",
+                       "processing-instruction data that begins with white space is written after the separating blank "
+                       "and read back without it (witness: PI data ' a'); no DOMError",
+                       {"request": WITNESS["F55"], "impl": W["F55"][:800], "what": "PI data loses leading white space"})
+    f44_open = W["F44"] == "hang" and ctx.find_known("F44") is not None
+    if W["F44"] != "hang" and W["F44"] != WM["F44"]:
+        violation("divergence", {"request": WITNESS["F44"], "impl": W["F44"], "model": WM["F44"],
+                                 "what": "formatBuf of a run ending in an unpaired high surrogate: neither the old loop nor "
+                                         "the TranscodingException of the repair"})
+    known_or_violation("F44", W["F44"] == "hang" and WM["F44"] in ("err HANG", "err Trans_BadSrcSeq"),
                        "XMLFormatter::handleUnEscapedChars loops forever when the transcoder consumes nothing: a run "
                        "that ends in an unpaired high surrogate with UTF-8 output (witness: formatBuf of 0061 D800)",
                        {"request": WITNESS["F44"], "impl": W["F44"], "what": "formatter does not terminate"})
@@ -764,7 +879,8 @@ def run(ctx):
         ctx.violation("model-crash", {"what": "model driver crashed", "stderr": err2[-2000:]}, no_input=True)
         return
     # requests on which the model predicts non-termination are not sent to the library (one witness is, above)
-    keep = [i for i, m in enumerate(model) if "HANG" not in m]
+    no_progress = (lambda m: "HANG" in m or "Trans_BadSrcSeq" in m) if f44_open else (lambda m: "HANG" in m)
+    keep = [i for i, m in enumerate(model) if not no_progress(m)]
     skipped_hang = len(lines) - len(keep)
     cases = [cases[i] for i in keep]
     lines = [lines[i] for i in keep]
@@ -805,10 +921,24 @@ def run(ctx):
     ctx.coverage["traces_validated_against_impl"] = len(lines)
     ctx.coverage["single_unit_formatBuf_calls"] = nsingle
     # Spec oracle: decode the implementation's bytes, un-escape them as a parser would, compare with the input
+    def norm_cr(units):
+        """what a parser reports for literal text: CR LF and CR become LF (XML 2.11)"""
+        out, i = [], 0
+        while i < len(units):
+            if units[i] == 13:
+                out.append(10)
+                i += 2 if i + 1 < len(units) and units[i + 1] == 10 else 1
+            else:
+                out.append(units[i])
+                i += 1
+        return out
+
     def spec_requests(req, ans):
+        """the Spec request that judges the implementation's answer: modes Std/Char are read as character data, Attr as
+        an attribute value (NoEscapes is judged in spec_verdict without the Spec: the text must be unchanged)"""
         a = req.split()
         enc, mode, unrep, ver, hx = a[1], a[2], a[3], a[4], a[5]
-        if mode not in ("2", "3") or not ans.startswith("ok"):
+        if mode not in ("1", "2", "3") or not ans.startswith("ok"):
             return None
         bs = unhex(ans.split()[1], 2) if len(ans.split()) > 1 else []
         dec = decode_bytes(enc, bs)
@@ -816,16 +946,33 @@ def run(ctx):
             return None
         return "unesc %s %s %s" % ("1" if mode == "2" else "0", ver, H(dec))
 
+    def encodable(enc, units):
+        try:
+            "".join(chr(u) for u in units).encode(PYCODEC[enc], "surrogatepass")
+            return True
+        except Exception:
+            return False
+
     def spec_verdict(req, ans, sans, xmlok):
         """'ok' | 'violates' | 'na'"""
         a = req.split()
-        hx = a[5]
+        enc, mode, hx = a[1], a[2], a[5]
         if xmlok != "ok 1":
             return "na"          # the input is not a string of XML characters: nothing is promised at this level
         if ans.startswith("err"):
             return "ok" if a[3] == "0" else "violates"      # UnRep_Fail may refuse; UnRep_CharRef must not
+        if mode == "0":
+            # NoEscapes: the text is written unchanged (characters the encoding lacks become references: not judged)
+            units = unhex(hx, 4)
+            if not encodable(enc, units) or enc == "win1252":
+                return "na"
+            dec = decode_bytes(enc, unhex(ans.split()[1], 2) if len(ans.split()) > 1 else [])
+            return "ok" if dec == units else "violates"
         if sans is None:
             return "na"
+        if mode == "1":
+            # StdEscapes protects & < > " ' but not CR: read back as character data, line ends normalised
+            return "ok" if sans == "some " + H(norm_cr(unhex(hx, 4))) else "violates"
         return "ok" if sans == "some " + hx else "violates"
 
     unexplained = []
@@ -842,11 +989,7 @@ def run(ctx):
                                              "input (F17 when the character is U+0085/U+2028 in XML 1.1)"})
         else:
             unexplained.append((kind, req, i, m))
-    if unexplained and not viol[0]:
-        k, req, i, m = unexplained[0]
-        ctx.violation("correspondence", {"what": "model and XMLFormatter differ but the Spec oracle found no failing input: "
-                                         "correspondence xh_C12~xm_C12 no longer checks", "request": req, "impl": i[:600],
-                                         "model": m[:600], "count": len(unexplained)}, no_input=True)
+    # (divergences that do not violate the Spec are reported after the remaining searches of this level, see 1b)
     # the same oracle on a seeded sample of agreeing cases, and on all single units of modes 2/3 via the sweep rows
     idx = [k for k, c in enumerate(cases) if c[0] != "sweep"]
     ctx.rng.shuffle(idx)
@@ -863,7 +1006,7 @@ def run(ctx):
         if kind != "sweep":
             continue
         a = req.split()
-        if a[2] not in ("2", "3") or a[3] != "1":
+        if a[2] not in ("1", "2", "3") or a[3] != "1":
             continue
         first = int(a[5])
         for j, ans in enumerate(impl[k][3:].split(",")):
@@ -894,6 +1037,65 @@ def run(ctx):
     ctx.note("formatter level: %d requests (%d single units), %d divergences, %d spec-checked, %d skipped (model "
              "predicts non-termination), %.1fs" % (len(lines), nsingle, len(divergences), spec_checked, skipped_hang,
                                                    time.time() - t0))
+
+    # ---------------------------------------------------------------------------------------------
+    # 1b. one XMLFormatter object, several formatBuf calls (each with its own escape mode): per step impl = model,
+    #     and the Spec oracle on every step
+    # ---------------------------------------------------------------------------------------------
+    t1b = time.time()
+    fq = gen_fseq_cases(ctx)
+    _, fqm, _ = run_bin(xm, fq)
+    keepq = [i for i, m in enumerate(fqm) if not no_progress(m)]
+    fq = [fq[i] for i in keepq]
+    fqm = [fqm[i] for i in keepq]
+    rcq, fqi, errq = run_bin(xh, fq, restart_on_hang=True)
+    if rcq != 0 or len(fqi) != len(fq):
+        ctx.violation("harness-crash", {"what": "implementation harness crashed or lost lines (fseq)", "rc": rcq,
+                                        "stderr": errq[-2000:], "request": fq[len(fqi)] if len(fqi) < len(fq) else None})
+        return
+    sq_reqs, sq_owner = [], []
+    for req, i, m in zip(fq, fqi, fqm):
+        ctx.count()
+        ctx.distinct(req)
+        a = req.split()
+        ia, ma = i.split()[1:], m.split()[1:]
+        njobs = (len(a) - 4) // 2
+        for j in range(njobs):
+            x = ia[j] if j < len(ia) else "?"
+            y = ma[j] if j < len(ma) else "?"
+            one = "fmt %s %s %s %s %s" % (a[1], a[4 + 2 * j], a[2], a[3], a[5 + 2 * j])
+            ans = ("err " + x[1:]) if x.startswith("!") else ("ok " + x)
+            sreq = spec_requests(one, ans)
+            sq_reqs += [sreq or "bad", "xmlstring %s %s" % (a[3], a[5 + 2 * j])]
+            sq_owner.append((req, j, one, ans, ("err " + y[1:]) if y.startswith("!") else ("ok " + y), sreq))
+    _, sq_out, _ = run_bin(xm, sq_reqs)
+    fq_div = 0
+    for n, (req, j, one, ans, mans, sreq) in enumerate(sq_owner):
+        verdict = spec_verdict(one, ans, None if sreq is None else sq_out[2 * n], sq_out[2 * n + 1])
+        if verdict != "na":
+            spec_checked += 1
+        if ans != mans:
+            fq_div += 1
+        if verdict == "violates" and bestfit_case(one) and ctx.find_known("F46"):
+            f46[0] += 1
+        elif verdict == "violates":
+            violation("divergence" if ans != mans else "spec",
+                      {"request": req, "step": j, "as_single_call": one, "impl": ans[:600], "model": mans[:600],
+                       "spec": sq_out[2 * n][:300],
+                       "what": "one XMLFormatter object, several formatBuf calls: the output of this step does not read "
+                               "back as its input (escape mode / reference cache)"})
+        elif ans != mans:
+            unexplained.append(("fseq", req, ans, mans))
+    if unexplained and not viol[0]:
+        k_, req, i, m = unexplained[0]
+        ctx.violation("correspondence", {"what": "model and XMLFormatter differ but the Spec oracle found no failing input: "
+                                         "correspondence xh_C12~xm_C12 no longer checks",
+                                         "request": req, "impl": i[:600], "model": m[:600], "count": len(unexplained)},
+                      no_input=True)
+        viol[0] += 1
+    kinds["fseq"] = len(fq)
+    ctx.coverage["traces_validated_against_impl"] += len(fq)
+    ctx.note("formatter sequences: %d requests, %d differing steps, %.1fs" % (len(fq), fq_div, time.time() - t1b))
 
     # ---------------------------------------------------------------------------------------------
     # 2. document level
@@ -969,7 +1171,8 @@ def run(ctx):
         if tr.nodes > 1:
             ctx.distinct(req)
         # --- model comparison (DOM level 1 trees, modelled encodings)
-        if k in dmodel:
+        open_class = (f40_open and "comment-dashes" in reasons) or (f41_open and "pi-end" in reasons)
+        if k in dmodel and not open_class:
             stats["model-compared"] += 1
             m = dmodel[k]
             if m.startswith("ok ") and "b1" in feats:
@@ -1023,7 +1226,7 @@ def run(ctx):
                 pass        # e.g. an unrepresentable character that the grammar lets a reference stand for after all
             else:
                 # emitted something that is ill-formed or different, without an error: attribute to the known classes
-                KNOWN_CLASS = {"comment-dashes": "F40", "pi-data": "F41", "attrname-unrepresentable": "F45",
+                KNOWN_CLASS = {"comment-dashes": "F40", "pi-end": "F41", "pi-leading-ws": "F55", "attrname-unrepresentable": "F45",
                                "lineend-in-cdata": "F47", "lineend-in-comment": "F47", "lineend-in-pi": "F47"}
                 # (an XML 1.1 RestrictedChar in text/attribute values is no obstacle by itself: it is written as a reference)
                 rs = [r for r in reasons if r != "restricted11"]
@@ -1122,12 +1325,104 @@ def run(ctx):
     ctx.coverage["traces_validated_against_impl"] += len(nlines)
     ctx.note("namespace fix-up: %d cases, %s, %.1fs" % (len(nlines), nstats, time.time() - t2))
 
+    # ---------------------------------------------------------------------------------------------
+    # 4. one DOMLSSerializer instance writing several documents: every output must be that of a fresh instance (and of
+    #    the model, which has no state), and must satisfy the property's oracle
+    # ---------------------------------------------------------------------------------------------
+    t3 = time.time()
+    seqs = gen_seq_cases(ctx)
+    sreqs_ = ["seq " + " | ".join(st[4] for st in steps) for steps in seqs]
+    rc1, simpl, err1 = run_bin(xh, sreqs_, restart_on_hang=True)
+    if rc1 != 0 or len(simpl) != len(sreqs_):
+        ctx.violation("harness-crash", {"what": "implementation harness crashed or lost lines (seq)", "rc": rc1,
+                                        "stderr": err1[-2000:], "answered": len(simpl), "asked": len(sreqs_),
+                                        "request": sreqs_[len(simpl)][:3000] if len(simpl) < len(sreqs_) else None})
+        return
+    mreq, mown = [], []
+    for qi, steps in enumerate(seqs):
+        for si, (tr, enc, feats, ver, body) in enumerate(steps):
+            if enc in ENCS and "p1" not in feats:
+                mreq.append("doc " + body)
+                mown.append((qi, si))
+    _, mout, _ = run_bin(xm, mreq)
+    smodel = dict(zip(mown, mout))
+    sstats = {"sequences": len(seqs), "steps": 0, "fresh-equal": 0, "model-equal": 0, "oracle-good": 0, "known-class": 0}
+    seq_unexplained = []
+    for qi, (steps, ans) in enumerate(zip(seqs, simpl)):
+        ctx.count()
+        ctx.distinct(sreqs_[qi])
+        if ans == "hang":
+            violation("divergence", {"request": sreqs_[qi][:6000], "impl": "hang", "what": "serializer does not return"})
+            continue
+        parts = ans.split(" | ")
+        for si, (tr, enc, feats, ver, body) in enumerate(steps):
+            sstats["steps"] += 1
+            part = parts[si] if si < len(parts) else "missing"
+            a = parse_doc_answer(part)
+            pretty = "p1" in feats
+            fresh = a.get("fresh") == "1"
+            if fresh:
+                sstats["fresh-equal"] += 1
+            ok_ser, reasons, split_needed = classify(tr, enc, feats, lambda e, c: can(e, c) is not False)
+            open_class = (f40_open and "comment-dashes" in reasons) or (f41_open and "pi-end" in reasons)
+            # model (DOM level 1 trees, modelled encodings, pretty-print off)
+            magree = True
+            if (qi, si) in smodel and not open_class:
+                m = smodel[(qi, si)]
+                magree = (m.startswith("ok ") and a.get("ser") == "ok" and a.get("bytes") == m[3:]) or \
+                         (m.startswith("err unrepresentable") and a.get("ser") == "fail") or \
+                         (m.startswith("err") and not m.startswith("err unrepresentable") and
+                          a.get("ser", "").startswith("exc:DOMLSException"))
+                if magree:
+                    sstats["model-equal"] += 1
+            # the property's oracle on what the re-used instance wrote
+            verdict = "good"
+            if not pretty and part != "missing" and not part.startswith(("build-exc", "bad-step")):
+                unknown = any(can(enc, c) is None for lst in (tr.data + tr.cdata + tr.comments + tr.names + tr.attr_names +
+                                                              [d for _, d in tr.pis]) for c in lst)
+                okout = a.get("ser") == "ok" and a.get("reparse") == "ok"
+                if unknown or ("x0" in feats and enc != "utf8"):
+                    verdict = "na"
+                elif ok_ser:
+                    verdict = "good" if okout and a.get("eq") in (("1", "merged") if split_needed else ("1",)) else "bad"
+                elif a.get("ser") != "ok" or (okout and a.get("eq") in ("1", "merged")):
+                    verdict = "good"
+                else:
+                    KNOWN_CLASS = {"comment-dashes": "F40", "pi-end": "F41", "pi-leading-ws": "F55", "lineend-in-cdata": "F47",
+                                   "lineend-in-comment": "F47", "lineend-in-pi": "F47"}
+                    rs = [r for r in reasons if r != "restricted11"]
+                    verdict = "known" if rs and all(r in KNOWN_CLASS and ctx.find_known(KNOWN_CLASS[r]) for r in rs) else "bad"
+            if verdict == "good":
+                sstats["oracle-good"] += 1
+            elif verdict == "known":
+                sstats["known-class"] += 1
+            if verdict == "bad":
+                violation("divergence" if not (fresh and magree) else "spec",
+                          {"request": sreqs_[qi][:8000], "step": si, "impl": part[:3000],
+                           "model": smodel.get((qi, si), "-")[:1500], "fresh_instance_equal": fresh,
+                           "expect": "seq-step",
+                           "what": "document %d written by a re-used DOMLSSerializer: the output is ill-formed / re-parses "
+                                   "to a different tree / content that cannot be expressed was emitted without an error"
+                                   % (si + 1)})
+            elif not fresh or not magree:
+                seq_unexplained.append((sreqs_[qi], si, part, smodel.get((qi, si), "-")))
+    if seq_unexplained and not viol[0]:
+        rq, si, part, m = seq_unexplained[0]
+        ctx.violation("correspondence", {"what": "a re-used DOMLSSerializer writes something else than a fresh instance / the "
+                                         "model, but the oracle found no failing input", "request": rq[:8000], "step": si,
+                                         "impl": part[:2000], "model": m[:1500], "count": len(seq_unexplained)}, no_input=True)
+        viol[0] += 1
+    ctx.coverage["serializer_sequences"] = sstats
+    ctx.coverage["traces_validated_against_impl"] += len(sreqs_)
+    ctx.note("serializer sequences: %s, %.1fs" % (sstats, time.time() - t3))
+
     if proof_broken and not ctx.violations:
         ctx.violation("obligation", {"what": "Coq obligation no longer checks and no failing input was found by the "
                                      "correspondence sweeps", "failed": failed, "output": out[-3000:]}, no_input=True)
     elif proof_broken:
         ctx.note("proof obligation failed; a concrete failing input was found by the correspondence")
     kinds["doc"] = len(dlines)
+    kinds["seq"] = len(sreqs_)
     ctx.coverage["input_distribution"] = {
         "formatter_requests": kinds,
         "document_cases": {"trees": ntrees, "configs_per_tree": 4, "encodings": all_encs,
